@@ -12,7 +12,8 @@ META = {
         'defined by the five primitives; (D2) refuse-then-unchanged -- in insert and __setitem__ the TypeError for '
         'non-dict rows and the version validation precede the first write to _row/_index/_version; (D3) no internal '
         'failure -- no primitive dereferences the lazily built id index where it may still be None (after '
-        'construction or slicing).  Overridden read-only mixins (__contains__, index, count, __iter__) must be the list operation on _row; answering from the id index is a violation (one row per id).  Not decided: lock-step comparison with a list as an execution.'),
+        'construction or slicing).  Overridden read-only mixins (__contains__, index, count, __iter__) must be the list operation on _row; answering from the id index is a violation (one row per id).  Not decided: lock-step comparison with a list as an execution.'
+        ' Also (D1): a Grid.pop override is the mixin spelled out (read at index, delete at index); removal by value is a violation.'),
     'rule_text': 'obligations = 5 primitives + slice/number/else branches + mixin table + 2 refusal orders + one '
                  'nullness obligation per Grid method that touches _index',
     'trusted_base': ['collections.abc.MutableSequence mixin methods reduce to the five primitives '
